@@ -11,9 +11,9 @@ PROPS = {
     "C01": dict(
         level="proof",
         lean=["Rio.Props.C01"],
-        engines=["hash"],
-        classes=["order"],
-        rule=HASH_RULE,
+        engines=["hash", "packenv"],
+        classes=["order", "pack-env"],
+        rule=HASH_RULE + " packenv: groups of filesets (each with a ~1 MB file) materialised at two disk paths of different depth and on tmpfs in different creation orders; packed sequentially, repeatedly, to no target / file:// / ca+file://, all concurrently for three rounds, and by the rio CLI in a subprocess under other TZ/LANG/cwd; every id must equal the sequential one and the Lean pack model's.",
         trusted_base=[SHA, "refmt CBOR encoder modelled in Rio/Model/Cbor.lean (pre-images compared byte for byte)"],
         assumptions=["records handed to the bucket have distinct keys (a fileset has one entry per path)"],
     ),
